@@ -15,6 +15,10 @@ CLAIMS = {
          "Proved for all values and keys meeting the stated well-formedness (64-bit fields, 1..2^32-1 outputs, NUL-free list items, names < 2^32 bytes): decode(encode x) = x, encode injective, first byte separates kinds, [] vs [\"\"] differ. Tag distinctness and the kind<->char bijection are proved over tables regenerated from the rebuilt code on every run. Every run compares model and code byte for byte on thousands of generated values/keys built through every factory, checks copy/move/re-decode canonicity, round trip and injectivity on the implementation itself.",
          "Trusted: Coq kernel (+vm_compute), hand-written model (tied by correspondence only), leaf_driver.cpp, extraction, comparator. Little-endian host. Decoders are only fed encoder output (the C++ decoder does not bounds-check; outside the property).",
          "DESIGN.md 4/C15"),
+ "C13": ("Coq theorems over a model of file observation (stat record, three file-system modes, FileInfo equality); model tied to the code by differential execution on a real directory through the real FileSystem wrappers, with Python's os.stat/hashlib as independent observer",
+         "Proved for all file states with a non-zero mode: detection of existence/size/mtime (and device/inode in default mode) differences, equality of untouched observations, the missing record is never produced for an existing object, device-agnostic ignores device/inode, checksum-only equality <-> same existence, type class, size and content (digest idealised as theorem premises), timestamp changes invisible there. Every run drives sequences of real file mutations (in-place same-size edits, inode replacement, empty file at mtime 0.0, dir/symlink retyping, 64 KiB one-bit flips) through getFileInfo/getLinkInfo of the three wrappers and compares every pair of observations with the model and with the property oracle.",
+         "Trusted: Coq kernel, hand-written model (tied by correspondence only), leaf_driver.cpp, Python observer, extraction. MD5 is idealised (premises of c13_checksum_mode). Unreadable files cannot be produced when running as root (branch modelled, not exercised).",
+         "DESIGN.md 4/C13"),
 }
 NOT_YET = "check not built yet (work proceeds in the order of DESIGN.md section 7); not claimed until a kernel-checked theorem tied to the code by a running correspondence exists"
 
